@@ -13,7 +13,7 @@ the end of every operation.
 
 Not here: the E-thr scenario (two threads in quit() at line granularity) - added by the lead.
 """
-import gc, io, logging, os, sys, time, warnings
+import functools, gc, io, itertools, logging, operator, os, sys, time, warnings
 from mc.engine import explore, pmap, Ctx
 from mc.report import Report, digest
 from mc.refs.c08_model import Model
@@ -23,6 +23,17 @@ PID = "C08"
 NAMES = ["foo", "foo_bar", "baz", "qux"]       # qux is a plain object (raises no events)
 GOUP_VARIANTS = ["", "L", "I", "LL", "LI", "IL", "II"]   # per GoingUp handler: release Inside / Later
 INVOCATION_LIMIT = 40
+
+# Kinds of callable a dependent may hand to call_when_ready (see make_callable).  Only the first three carry a
+# __code__ object; "partial", "partial-method" and "object" have no __name__ either.
+CALLABLE_KINDS = ("function", "lambda", "method", "classmethod", "partial", "partial-method", "partial-wrapped",
+                  "object", "object-name-none", "builtin", "class")
+NAMELESS = ("partial", "partial-method", "object")      # no __name__: the waiter's name cannot be derived from it
+BFS_CALLABLES = ("method", "partial", "object", "builtin", "class")
+ARG_MODES = ("plain", "args", "kw", "both", "args-list")
+if not hasattr(operator, "call"):                         # Python < 3.11: no builtin that simply calls its argument
+  CALLABLE_KINDS = tuple(k for k in CALLABLE_KINDS if k != "builtin")
+  BFS_CALLABLES = tuple(k for k in BFS_CALLABLES if k != "builtin")
 
 _P = None
 _CUR = None
@@ -213,6 +224,61 @@ def _handler_comps (spec):
   return handled + (("core",) if hasattr(cls, "_handle_core_ComponentRegistered") else ())
 
 
+# ---------------------------------------------------------------------------------------
+# kinds of callable handed to call_when_ready
+# ---------------------------------------------------------------------------------------
+class _Holder (object):
+  def __init__ (self, target): self.target = target
+  def run (self, *a, **k): return self.target(*a, **k)
+
+
+class _CallableObject (object):
+  def __init__ (self, target): self.target = target
+  def __call__ (self, *a, **k): return self.target(*a, **k)
+
+
+class _CallableObjectNameNone (_CallableObject):
+  __name__ = None                               # call_when_ready: "if name is None: name = str(callback)"
+
+
+def make_callable (ck, target, tag):
+  """A callable of kind `ck` which, called as cb(*(pre + args), **kw), runs target(*args, **kw) and returns its
+  result / lets its exception through.  Returns (cb, pre): `pre` has to be put in front of the `args=` passed to
+  call_when_ready (non-empty only for the builtin, which needs to be told what to call)."""
+  def fn (*a, **k): return target(*a, **k)
+  fn.__name__ = "cb_%s" % (tag,)
+  if ck == "function": return fn, ()
+  if ck == "lambda": return (lambda *a, **k: target(*a, **k)), ()
+  if ck == "method": return _Holder(target).run, ()
+  if ck == "classmethod":
+    cls = type("Holder_%s" % (tag,), (object,), {"run": classmethod(lambda cls, *a, **k: target(*a, **k))})
+    return cls.run, ()
+  if ck == "partial":
+    def fn2 (pre, *a, **k): return target(*a, **k)
+    return functools.partial(fn2, "pre-bound"), ()
+  if ck == "partial-method": return functools.partial(_Holder(target).run), ()
+  if ck == "partial-wrapped":                   # has __name__ / __module__ / __wrapped__ but still no __code__
+    return functools.update_wrapper(functools.partial(fn), fn), ()
+  if ck == "object": return _CallableObject(target), ()
+  if ck == "object-name-none": return _CallableObjectNameNone(target), ()
+  if ck == "builtin": return operator.call, (fn,)           # builtin_function_or_method: no __code__, no source file
+  if ck == "class":                             # "instantiate this component class once its dependencies are there"
+    # (its __module__ names no loaded module, so `inspect` has no source file to search for its definition)
+    return type("Comp_%s" % (tag,), (object,), {"__init__": lambda self, *a, **k: target(*a, **k),
+                                                "__module__": "c08_dynamic_component"}), ()
+  raise ValueError(ck)
+
+
+def arg_mode (am, tag):
+  """(args, kw) a dependent passes with its declaration in argument mode `am` (None: parameter not given)."""
+  if am == "plain": return None, None
+  if am == "args": return (("a", tag),), None
+  if am == "args-list": return [("a", tag), "second"], None
+  if am == "kw": return None, {"k": ("k", tag)}
+  if am == "both": return (("a", tag),), {"k": ("k", tag)}
+  raise ValueError(am)
+
+
 def site_of (P, e):
   """basename:function:exception of the innermost pox frame."""
   tb = e.__traceback__; best = None
@@ -266,6 +332,9 @@ class World (object):
     self.check_from = 0
     self.decl = {}                # wid -> (form if no deps, ready when declared)
     self.parked = False           # a quit was issued during start-up
+    self.cb_wid = {}              # id(callable) -> wid, for callables that cannot carry an attribute
+    self.keep = []                # keeps those callables alive (ids stay unique)
+    self.wkind = {}               # wid -> (callable kind, argument mode) where not the plain function
 
   def boot (self):
     P = self.P
@@ -355,13 +424,40 @@ class World (object):
     self.oplog.append(("cr", event.name))
 
   # ---- waiter callbacks ---------------------------------------------------
-  def make_cb (self, wid, deps):
+  def make_cb (self, wid, deps, ck="function", am="plain"):
+    """The callback of waiter `wid` as a callable of kind ck, declared in argument mode am.
+    Returns (callback, extra keyword arguments for call_when_ready)."""
     w = self
-    def cb ():
+    if ck == "function" and am == "plain":
+      def cb ():
+        w.invoked(wid, deps)
+      cb.c08 = wid
+      cb.__name__ = "cb%d" % wid[1]
+      return cb, {}
+    args, kw = arg_mode(am, wid[1])
+    exp = (tuple(args or ()), dict(kw or {}))
+    def target (*a, **k):
+      if (a, k) != exp:
+        w.note("  waiter %s%s called with %r %r", wid[0], wid[1], a, k)
+        w.fail("callback-arguments", "waiter %s was declared with args=%r kw=%r but its callback was called with %r %r"
+               % (wid, args, kw, a, k), "callback")
       w.invoked(wid, deps)
-    cb.c08 = wid
-    cb.__name__ = "cb%d" % wid[1]
-    return cb
+    cb, pre = make_callable(ck, target, wid[1])
+    self.cb_wid[id(cb) if not pre else id(pre[0])] = wid
+    self.keep.append((cb, pre))
+    extra = {}
+    if pre or args is not None: extra["args"] = (pre + tuple(args or ())) if pre else args
+    if kw is not None: extra["kw"] = kw
+    if ck in NAMELESS: extra["name"] = "waiter-%d" % wid[1]    # nothing to derive a name from
+    self.wkind[wid] = (ck, am)
+    return cb, extra
+
+  def wid_of_entry (self, e):
+    """Which harness waiter a core._waiters entry belongs to (None: an entry made by core itself)."""
+    wid = getattr(e[0], "c08", None)
+    if wid is None: wid = self.cb_wid.get(id(e[0]))
+    if wid is None and e[3]: wid = self.cb_wid.get(id(e[3][0]))
+    return wid
 
   def invoked (self, wid, deps):
     self.invocations += 1
@@ -512,20 +608,20 @@ class World (object):
   def _ref_listener (self, event):
     if self.probing: self.probe_order.append("ref")
 
-  def do_cwr (self, deps, form):
+  def do_cwr (self, deps, form, ck="function", am="plain"):
     wid = ("w", self.next_wid); self.next_wid += 1
     self.decl[wid] = ((form if not deps else None), self.model.ready(deps))
     self.model.declare(wid, deps)
-    cb = self.make_cb(wid, deps)
+    cb, extra = self.make_cb(wid, deps, ck, am)
     if form == "str": arg = deps[0]
     elif form == "list": arg = list(deps)
     elif form == "tuple": arg = tuple(deps)
     elif form == "set": arg = set(deps)
     self.calls += 1
     if form == "list" and not deps and self.prm.get("default_arg", True):
-      self.core.call_when_ready(cb)               # the documented default: components=[]
+      self.core.call_when_ready(cb, **extra)      # the documented default: components=[]
     else:
-      self.core.call_when_ready(cb, arg)
+      self.core.call_when_ready(cb, arg, **extra)
 
   def do_ltd (self, kind):
     name, cls, deps, handled, adm, kw = self.P.SINKS[kind]
@@ -631,6 +727,12 @@ class World (object):
       if only is None:
         for form in ("set", "list", "tuple"):
           cwrs.append(("cwr", 0, form))
+      # the same declarations with the callback being another kind of callable / taking declared arguments
+      for mask in range(0, 1 << self.nc):
+        if only is not None and mask not in only: continue
+        single = (mask & (mask - 1)) == 0
+        for ck, am in prm.get("callables", ()):
+          cwrs.append(("cwr", mask, "list" if not mask else (forms[0] if single else forms[1])[0], ck, am))
       st = prm["_static"] = (regs, cwrs, [("goUp", v) for v in prm["goup"]])
     ops = list(st[0])
     if len(self.model.pending) < prm["maxp"]:
@@ -650,7 +752,8 @@ class World (object):
 
   def describe (self, op):
     if op[0] == "cwr":
-      return "call_when_ready(cb, %s as %s)" % ([n for i, n in enumerate(self.names) if op[1] >> i & 1], op[2])
+      return "call_when_ready(cb, %s as %s)%s" % ([n for i, n in enumerate(self.names) if op[1] >> i & 1], op[2],
+             " [cb is a %s, arguments: %s]" % (op[3], op[4]) if len(op) > 3 else "")
     if op[0] == "ltd": return "listen_to_dependencies(%s)" % self.P.SINKS[op[1]][0]
     if op[0] == "reg": return "register(%s)" % op[1] + (" as %s object" % op[2] if len(op) > 2 else "")
     if op[0] == "goUp": return "goUp() with GoingUp handlers %r" % (op[1],)
@@ -667,7 +770,7 @@ class World (object):
       k = op[0]
       if k == "reg": self.do_register(op[1], op[2] if len(op) > 2 else None)
       elif k == "cwr":
-        self.do_cwr([n for i, n in enumerate(self.names) if op[1] >> i & 1], op[2])
+        self.do_cwr([n for i, n in enumerate(self.names) if op[1] >> i & 1], op[2], *op[3:])
       elif k == "ltd": self.do_ltd(op[1])
       elif k == "goUp": self.do_goup(op[1])
       elif k == "release": self.do_release(op[1])
@@ -726,9 +829,9 @@ class World (object):
     core = self.core; P = self.P
     ws = []
     for e in core._waiters:
-      wid = getattr(e[0], "c08", None)
+      wid = self.wid_of_entry(e)
       if wid is not None:
-        ws.append(("w", tuple(sorted(self.model.declared[wid]))))
+        ws.append(("w", tuple(sorted(self.model.declared[wid]))) + self.wkind.get(wid, ()))
       else:
         # an entry made by core itself (listen_to_dependencies): everything it carries, including what its
         # callback closes over - two histories only merge if that hidden state agrees too
@@ -791,11 +894,21 @@ def params (cfg):
   kinds = dict(nc=3, maxp=2, depth=5, dev=1, sinks=[14, 3, 2, 0, 10], goup=[""], noquit=True, cwr_masks=[4],
                kinds=["empty", "plain", "any", "undeclared"],
                forms=(("str",), ("list",)))
-  if cfg.quick: return [q, shared, defer, wiring, kinds]
-  deep = dict(q, maxp=4, depth=6)
+  # kinds of CALLABLE a dependent declares (the callback need not be a plain function: bound method, functools.partial,
+  # object with __call__, builtin, class) and declarations that carry args= / kw= for the callback, next to plain
+  # waiters and one sink; every such waiter may return / raise / register / declare like any other
+  # (the full product kind x name x arguments x ending x order x position x forms is the lattice in callable_part)
+  callables = dict(nc=2, maxp=cfg.pick(2, 3), depth=cfg.pick(5, 5), dev=2, sinks=[0], goup=[""], noquit=True,
+                   forms=(("str",), ("list",)),
+                   callables=[(ck, "plain") for ck in BFS_CALLABLES] + [("function", "both")])
+  for label, p in (("q", q), ("shared", shared), ("defer", defer), ("wiring", wiring), ("kinds", kinds),
+                   ("callables", callables)):
+    p["_label"] = label
+  if cfg.quick: return [q, shared, defer, wiring, kinds, callables]
+  deep = dict(q, maxp=4, depth=6, _label="deep")
   wide = dict(nc=4, maxp=5, depth=4, dev=3, sinks=[0, 1, 2, 3, 4, 5], goup=GOUP_VARIANTS,
-              forms=(("str", "list"), ("list", "tuple", "set")))
-  return [deep, wide, shared, defer, wiring, dict(kinds, depth=6, maxp=3)]
+              forms=(("str", "list"), ("list", "tuple", "set")), _label="wide")
+  return [deep, wide, shared, defer, wiring, dict(kinds, depth=6, maxp=3), callables]
 
 
 def public (prm):
@@ -831,6 +944,18 @@ def _expand (args):
   return rep, succ
 
 
+LATTICE_RULE = (
+  " || API-form lattice (full product, one fresh core per case): a waiter whose callback is a callable of kind %s "
+  "(builtin-method = list.append: args forms and `return` only; none = callback None: `return` only) x waiter name "
+  "%s x declared arguments %s x how the callback ends %s x %s x its position among %d waiters for the same component "
+  "(the others are plain functions) x form of its components argument %s x form of the registration %s; then an "
+  "unrelated component is registered.  Reference: no call into core raises; each waiter runs exactly once, during "
+  "the call that completes its components (its own declaration if complete), with them registered, with the "
+  "arguments it declared; nothing runs at the unrelated registration. "
+  "|| shared-callable lattice: ONE callable of kind %s handed to two declarations that differ in %s, callback ends "
+  "%s, every permutation of {declare 1, declare 2, register x, register y}: two waiters, each runs once when its own "
+  "components are there with its own arguments.")
+
 RULE = ("breadth-first over canonical states of a real POXCore: every history of <=DEPTH operations from "
         "{register(c) incl. re-registration (object kinds: raises events; where stated also EventMixin with an empty event set / `True` / nothing declared, plain object - a sink naming them must still complete its wiring, handlers are wired only to objects that raise the event); call_when_ready(cb, every subset of the components in the given argument "
         "forms, the empty set as set()/default []/()); listen_to_dependencies(one of the sink classes: underscore "
@@ -846,6 +971,9 @@ RULE = ("breadth-first over canonical states of a real POXCore: every history of
         "held deferral; quit (<=2); run of a thread spawned by quit()}, at most MAXP pending waiters; every "
         "waiter callback invoked picks one of {return, raise, register an unregistered component, declare a further "
         "waiter on one component}, sink completion callbacks {return, raise}, <=DEV non-default picks per history. "
+        "Where stated the callback of a declared waiter is another KIND OF CALLABLE (bound method, functools.partial, "
+        "object with __call__, builtin, class; a name= is given only where the callable has no __name__) or the "
+        "declaration carries args=/kw= which the callback must receive; such a waiter has the same choices. "
         "One representative history per distinct (state, fewest deviations) is extended; state = components, "
         "_waiters in order, running/starting_up/deferrals/scheduler flags, outstanding deferrals, parked quit threads, "
         "sink wiring incl. stale bindings, event log, model state. After every new operation every component object "
@@ -890,6 +1018,243 @@ def collision_part (rep):
         rep.outcome(("collision", name, order, form, bad and bad[0]))
         if bad:
           rep.violation("%s:%s" % (PID, bad[0]), bad[1] + " [%s, deps as %s]" % (order, form), dict(collision=dict(name=name, order=order, form=form)))
+
+
+# ---------------------------------------------------------------------------------------
+# API-form lattice: kind of callable x waiter name x declared arguments x how the callback ends x order x position
+# among other waiters x form of the dependency argument x form of the registration
+# ---------------------------------------------------------------------------------------
+class _BadStr (Exception):
+  """A failure whose text cannot be produced (reporting it must stay best-effort)."""
+  def __str__ (self): raise RuntimeError("no text for this failure")
+  __repr__ = __str__
+
+LATTICE_KINDS = CALLABLE_KINDS + ("builtin-method", "none")
+ENDINGS = ("return", "ValueError", "TypeError", "AttributeError", "KeyError", "StopIteration", "bad-str")
+_EXC = dict(ValueError=ValueError, TypeError=TypeError, AttributeError=AttributeError, KeyError=KeyError,
+            StopIteration=StopIteration)
+NAME_MODES = ("derived", "explicit")
+ORDERS = ("declare-first", "declare-first,unrelated-registration-between", "register-first")
+DEP_FORMS = ("str", "list", "tuple+registered", "set+registered", "frozenset", "generator+registered", "dict-keys")
+REG_FORMS = ("name,object", "object:class-name", "object:_core_name", "registerNew", "registerNew:_core_name+args")
+
+
+def _kind_class (ck):
+  return "callable-without-__name__" if ck in NAMELESS else ck
+
+
+def _raise (ending):
+  if ending == "return": return
+  if ending == "bad-str": raise _BadStr()
+  raise _EXC[ending]("callback fails on purpose")
+
+
+def _register_form (core, name, rf):
+  """Register a fresh component under `name` in one of the documented ways."""
+  if rf == "name,object": return core.register(name, object())
+  if rf == "object:class-name": return core.register(type(name, (object,), {})())
+  if rf == "object:_core_name": return core.register(type("SomeComponent", (object,), {"_core_name": name})())
+  if rf == "registerNew": return core.registerNew(type(name, (object,), {}))
+  if rf == "registerNew:_core_name+args":
+    cls = type("SomeComponent", (object,), {"_core_name": name, "__init__": lambda self, a, k=None: None})
+    return core.registerNew(cls, "a", k="k")
+  raise ValueError(rf)
+
+
+def callable_cases (cfg, ck, orders=ORDERS):
+  """Every case of the lattice for one kind of callable (quick: 3 waiters; thorough: 4)."""
+  slots = cfg.pick(3, 4)
+  ams = ("args", "args-list") if ck == "builtin-method" else ARG_MODES
+  endings = ("return",) if ck in ("builtin-method", "none") else ENDINGS
+  for nm, am, ending, order, pos, df, rf in itertools.product(NAME_MODES, ams, endings, orders, range(slots),
+                                                              DEP_FORMS, REG_FORMS):
+    yield (ck, nm, am, ending, order, pos, df, rf, slots)
+
+
+def callable_case (P, case):
+  """One waiter (the subject) is declared with a callable of kind ck among plain-function waiters for the same
+  component; reference: a waiter runs exactly once, during the call that completes its components (its own
+  declaration if they are complete already), with them registered and with the arguments it declared; no call
+  into core raises; a later unrelated registration runs nothing."""
+  ck, nm, am, ending, order, pos, df, rf, slots = case
+  core = P.core.POXCore(threaded_selecthub=False, handle_signals=False)
+  P.core.core = core
+  runs = []                                     # (slot, components present, arguments as declared)
+  appended = []                                 # what the builtin bound method (list.append) collected
+  declared, done, registered = {}, set(), set(["w"])     # the reference
+  subj_names = ["w", "x"] if df.endswith("+registered") else ["x"]
+  subj_deps = {"str": "x", "list": ["x"], "tuple+registered": ("w", "x"), "set+registered": set(["x", "w"]),
+               "frozenset": frozenset(["x"]), "generator+registered": (n for n in ("w", "x")),   # can be read only once
+               "dict-keys": {"x": 1}.keys()}[df]
+  by_deps = ["x", ["w", "x"], ("x",)]
+  trace = []
+
+  def declare (slot):
+    if slot == pos:
+      args, kw = arg_mode(am, "s")
+      deps = subj_deps
+      names = subj_names
+      exp = (tuple(args or ()), dict(kw or {}))
+      def target (*a, **k):
+        runs.append((slot, all(d in core.components for d in names), (a, k) == exp))
+        _raise(ending)
+      extra = {}
+      if ck == "none": cb, pre = None, ()
+      elif ck == "builtin-method": cb, pre = appended.append, ()
+      else: cb, pre = make_callable(ck, target, "s")
+      if pre or args is not None: extra["args"] = (pre + tuple(args or ())) if pre else args
+      if ck == "builtin-method": extra["args"] = args[:1]          # list.append takes exactly one argument
+      if kw is not None: extra["kw"] = kw
+      if nm == "explicit": extra["name"] = "the-subject"
+      if ck != "none": declared[slot] = set(names)
+      core.call_when_ready(cb, deps, **extra)
+    else:
+      deps = by_deps[(slot - (slot > pos)) % len(by_deps)]
+      names = [deps] if isinstance(deps, str) else list(deps)
+      def bystander ():
+        runs.append((slot, all(d in core.components for d in names), True))
+      declared[slot] = set(names)
+      core.call_when_ready(bystander, deps)
+
+  def role (slot):
+    return "subject" if slot == pos else ("bystander-before-subject" if slot < pos else "bystander-after-subject")
+
+  steps = [("decl", i) for i in range(slots)]
+  if order == "declare-first": steps = steps + [("reg", "x")]
+  elif order == "register-first": steps = [("reg", "x")] + steps
+  else: steps = steps + [("reg", "u"), ("reg", "x")]          # every pending waiter is looked at once more before x comes
+  steps.append(("reg", "y"))
+  bad = None
+  core.register("w", object())
+  for kind, what in steps:
+    before = len(runs)
+    op = "call_when_ready" if kind == "decl" else "register"
+    try:
+      if kind == "decl": declare(what)
+      elif what == "x": _register_form(core, "x", rf)
+      else: core.register(what, object())
+    except Exception as e:
+      site = site_of(P, e)
+      key = "raises:%s:%s" % (op, site)
+      if nm == "derived" and site.startswith("core.py:call_when_ready:"):
+        key += ":default-name-of-" + _kind_class(ck)
+      bad = (key, "%s raised %s: %s" % (op, type(e).__name__, e))
+    if kind == "reg": registered.add(what)
+    for item in appended[sum(1 for r in runs if r[0] == pos):]:        # what list.append was called with meanwhile
+      runs.append((pos, True, item == ("a", "s")))
+    new = runs[before:]
+    trace.append((kind, what, tuple(new)))
+    if bad: break
+    due = sorted(s for s, d in declared.items() if s not in done and d <= registered)
+    got = [r[0] for r in new]
+    for slot, present, argsok in new:
+      if slot in done or got.count(slot) > 1: bad = ("fired-twice:" + role(slot), "waiter %d ran again" % slot)
+      elif slot not in due or not present:
+        bad = ("fired-early:" + role(slot), "waiter %d ran while its components were not all registered" % slot)
+      elif not argsok:
+        bad = ("callback-arguments:" + role(slot), "waiter %d was not called with the arguments it declared" % slot)
+      if bad: break
+    if not bad:
+      for slot in due:
+        if slot not in got:
+          bad = ("never-fired:" + role(slot), "waiter %d has all its components registered but did not run in the "
+                 "call that completed them (%s %s)" % (slot, op, what)); break
+    done.update(got)
+    if bad: break
+  return bad, tuple(trace)
+
+
+SHARED_VARIANTS = ("different-components", "different-arguments", "different-components-and-arguments")
+
+def shared_cases (cfg, ck, orders=None):
+  for variant, ending, perm in itertools.product(SHARED_VARIANTS, ("return", "ValueError"),
+                                                 itertools.permutations(("D1", "D2", "Rx", "Ry"))):
+    yield (ck, variant, ending, perm)
+
+
+def shared_case (P, case):
+  """ONE callable is handed to call_when_ready in two declarations which differ in the components they name and /
+  or in the arguments they carry (kind "method-equal": two distinct but equal bound-method objects).  These are two
+  waiters: each runs once, when ITS components are there, with ITS arguments."""
+  ck, variant, ending, perm = case
+  core = P.core.POXCore(threaded_selecthub=False, handle_signals=False)
+  P.core.core = core
+  runs, trace = [], []
+  def target (*a, **k):
+    runs.append((a, tuple(sorted(core.components))))
+    _raise(ending)
+  if ck == "method-equal":
+    h = _Holder(target); cbs = {"D1": h.run, "D2": h.run}; pre = ()
+  else:
+    cb, pre = make_callable(ck, target, "shared"); cbs = {"D1": cb, "D2": cb}
+  spec = {"D1": (["x"], ("one",)), "D2": (["y"], ("two",))}
+  if variant == "different-components": spec = {"D1": (["x"], ()), "D2": (["y"], ())}
+  elif variant == "different-arguments": spec["D2"] = (["x"], ("two",))
+  pending, registered = [], set()
+  bad = None
+  for step in perm:
+    before = len(runs)
+    op = "call_when_ready" if step[0] == "D" else "register"
+    try:
+      if step[0] == "D":
+        deps, args = spec[step]
+        pending.append((args, set(deps)))
+        extra = {"args": pre + args} if (pre or args) else {}
+        if ck in NAMELESS: extra["name"] = "waiter-" + step
+        core.call_when_ready(cbs[step], list(deps), **extra)
+      else:
+        registered.add(step[1].lower())
+        core.register(step[1].lower(), object())
+    except Exception as e:
+      bad = ("raises:%s:%s" % (op, site_of(P, e)), "%s raised %s: %s" % (op, type(e).__name__, e))
+    new = runs[before:]
+    trace.append((step, tuple(new)))
+    if bad: break
+    for a, reg in new:
+      hit = [p for p in pending if p[0] == a and p[1] <= registered and p[1] <= set(reg)]
+      if not hit:
+        bad = ("shared-callable:fired-unexpected", "the callable ran with arguments %r and components %r: no waiter "
+               "declared with these arguments is due (pending: %r)" % (a, reg, pending)); break
+      pending.remove(hit[0])
+    if bad: break
+    late = [p for p in pending if p[1] <= registered]
+    if late:
+      bad = ("shared-callable:never-fired", "after %s the waiter(s) %r have all their components registered (%s) but "
+             "did not run" % (step, late, sorted(registered))); break
+  return bad, tuple(trace)
+
+
+def _callable_work (item):
+  part, quick, ck, orders = item
+  P = _import()
+  rep = Report(PID, "model_checking")
+  cfg = _PickCfg(quick)
+  cases, fn = ((callable_cases, callable_case) if part == "callable" else (shared_cases, shared_case))
+  w = World(P, None, dict(nc=0))                 # only for the environment patches (stdout, threads)
+  with Env(w):
+    for case in cases(cfg, ck, orders):
+      bad, trace = fn(P, case)
+      rep.evaluations += 1
+      rep.transitions += len(trace) + (part == "callable")
+      rep.outcome((part, case[:4] if part == "callable" else case[:3], trace, bad and bad[0]))
+      if bad:
+        rep.violation("%s:%s" % (PID, bad[0]), "%s [%s lattice case %r]" % (bad[1], part, case),
+                      dict(lattice=part, case=list(case)))
+      elif len(rep.samples) < 1 and rep.evaluations % 499 == 7:
+        rep.sample(dict(lattice=part, case=list(case), trace=repr(trace)))
+  return rep
+
+
+class _PickCfg (object):
+  def __init__ (self, quick): self.quick = quick
+  def pick (self, q, t): return q if self.quick else t
+
+
+def callable_part (cfg, rep):
+  items = [("callable", cfg.quick, ck, (order,)) for ck in LATTICE_KINDS for order in ORDERS]
+  items += [("shared", cfg.quick, ck, None) for ck in CALLABLE_KINDS + ("method-equal",)]
+  for r in pmap(_callable_work, items, cfg.workers, seed=cfg.seed):
+    rep.merge(r)
 
 
 # ---------------------------------------------------------------------------------------
@@ -963,15 +1328,25 @@ def run (cfg):
   P = _import()
   rep = Report(PID, "model_checking")
   prms = params(cfg)
+  only = set(cfg.only.split(",")) if getattr(cfg, "only", None) else None     # debugging: --only callables,lattice
+  if only is not None: prms = [p for p in prms if p.get("_label") in only]
   rep.rule = RULE % (GOUP_VARIANTS, "; ".join(
     "components=%s DEPTH=%d MAXP=%d DEV=%d sinks=%s forms=%s goUp=%s%s"
     % (NAMES[:p["nc"]], p["depth"], p["maxp"], p["dev"], [P.SINKS[k][0] for k in p["sinks"]], p["forms"], p["goup"],
        (" no-quit" if p.get("noquit") else "") + (" waiters-only-on-masks=%s" % p["cwr_masks"] if p.get("cwr_masks") else "")
        + (" deferral-takers=%d(<=%d held each)" % (p["takers"], p["hold_max"]) if p.get("takers") else "")
-       + (" register-also-as=%s" % (p["kinds"],) if p.get("kinds") else ""))
+       + (" register-also-as=%s" % (p["kinds"],) if p.get("kinds") else "")
+       + (" callbacks-also-as(kind of callable, declared arguments)=%s" % (p["callables"],) if p.get("callables") else ""))
     for p in prms))
+  rep.rule += LATTICE_RULE % (LATTICE_KINDS, NAME_MODES, ARG_MODES, ENDINGS, ORDERS, cfg.pick(3, 4), DEP_FORMS,
+                              REG_FORMS, CALLABLE_KINDS + ("method-equal",), SHARED_VARIANTS, ("return", "ValueError"))
   rep.bound = dict(configurations=[dict(depth=p["depth"], deviations=p["dev"], components=p["nc"],
-                                        pending_waiters=p["maxp"], sinks=len(p["sinks"])) for p in prms])
+                                        pending_waiters=p["maxp"], sinks=len(p["sinks"])) for p in prms],
+                   callable_lattice=dict(kinds=len(LATTICE_KINDS), names=len(NAME_MODES), arguments=len(ARG_MODES),
+                                         endings=len(ENDINGS), orders=len(ORDERS), waiters=cfg.pick(3, 4),
+                                         component_forms=len(DEP_FORMS), registration_forms=len(REG_FORMS)),
+                   shared_callable_lattice=dict(kinds=len(CALLABLE_KINDS) + 1, variants=len(SHARED_VARIANTS),
+                                                endings=2, permutations=24))
   rep.assumptions = [
     "threads spawned by quit() run atomically between operations (fine-grained interleaving is the E-thr scenario)",
     "the scheduler thread is absent: scheduler.callLater is queued and run by the virtual sleep; scheduler.quit is a stub; gc.collect is a no-op",
@@ -980,6 +1355,12 @@ def run (cfg):
     "the order among several simultaneously ready waiters is unconstrained",
     "UpEvent after a quit, and UpEvent at the release instant inside a GoingUp handler vs. at the end of goUp, are unconstrained",
     "exploration of a history stops at its first violation",
+    "a failing callback raises an Exception subclass (ValueError in histories; ValueError, TypeError, AttributeError, "
+    "KeyError, StopIteration, an exception whose __str__/__repr__ raise in the lattice); BaseException-only failures "
+    "(SystemExit, KeyboardInterrupt) are not demanded to be contained",
+    "waiter names given explicitly are strings; the SAME callable declared twice with identical components and "
+    "arguments is not constrained (two waiters or one - the statement is silent)",
+    "the dynamically made callback class names no loaded module (inspect has no source file to search)",
   ]
   for spec in P.SINKS:
     if spec[2] is not None:
@@ -990,8 +1371,9 @@ def run (cfg):
   for prm in prms:
     levels = bfs(cfg, prm, rep)
     rep.extra["new_states_per_level"].append(levels)
-  collision_part(rep)
-  quit_race_part(cfg, rep)
+  if only is None or "collision" in only: collision_part(rep)
+  if only is None or "lattice" in only: callable_part(cfg, rep)
+  if only is None or "quitrace" in only: quit_race_part(cfg, rep)
   return rep
 
 
@@ -1030,6 +1412,11 @@ def replay (cfg, data):
     try: bad, out = quit_race_run(Ctx(list(data["choices"])))
     finally: gc.enable()
     return bool(bad), "two threads call quit(): events %r => %r" % (out, bad)
+  if "lattice" in data:
+    fn = callable_case if data["lattice"] == "callable" else shared_case
+    with Env(World(P, None, dict(nc=0))):
+      bad, trace = fn(P, data["case"])
+    return bool(bad), "%s lattice case %r\nobserved per step: %r\n=> %r" % (data["lattice"], data["case"], trace, bad)
   if "collision" in data:
     r = Report(PID, "model_checking"); collision_part(r)
     c = data["collision"]
